@@ -72,8 +72,8 @@ CHECKS.update({
 CHECKS.update({
     "C06": dict(
         technique="TLA+ spec of the counter discipline of the IP, BLE and CoAP session layers (spec/session/SessionCounters.tla) model-checked by TLC; TLC behaviours and seeded histories driven on the real layers with AEAD-boundary observations validated against SessionCounters_Trace; CoAP resynchronisation heuristics modelled as named deviation actions (known findings)",
-        text="TLC checks NoNonceReuse, AcceptOnceInOrder, AcceptPrefix, ClosedEpochUnused over all sequences of {request of n frames, accessory message, deliver next / replay / future, corrupted, abandon, re-key, CoAP events} to a depth bound for IP, BLE and CoAP (without the rewind/reset heuristics). The same alphabet is driven on SecureHomeKitProtocol, EncryptionKey/DecryptionKey and EncryptionContext/EventResource; every recorded execution must be a behaviour of the spec. With the CoAP deviations enabled TLC finds the two recorded counterexamples and the check replays them on the real EncryptionContext each run (KNOWN-FINDING); CoAP traces are accepted only if explained without a deviation or by a listed one.",
-        note="AEAD assumed ideal. IP driven at the protocol object over a stub transport, BLE at the key objects, CoAP with a stub aiocoap context. Known findings: known_findings.json (coap-resync-rewind, coap-resync-reset).",
+        text="TLC checks NoNonceReuse, AcceptOnceInOrder, AcceptPrefix, ClosedEpochUnused over all sequences of {request of n frames, accessory message, deliver next / replay / future, corrupted, abandon, re-key, CoAP events} to a depth bound for IP, BLE and CoAP (without the rewind/reset heuristics). The same alphabet is driven on SecureHomeKitProtocol, EncryptionKey/DecryptionKey and EncryptionContext/EventResource; every recorded execution must be a behaviour of the spec. With the CoAP deviations enabled TLC finds the two recorded counterexamples and the check replays them on the real EncryptionContext each run (KNOWN-FINDING); CoAP traces are accepted only if explained without a deviation or by a listed one. Counters and epochs unbounded: Apalache discharges the inductive invariant IndInv (initiation, consecution, IndInv => both properties) and refutes it with the deviations on. BLE additionally at pairing level: seeded executions of the real BlePairing (calls, faults, link loss, cancellation, close) recorded at the AEAD boundary are validated against the BLE session model (spec/ble/BleSession.tla) with NoNonceReuse, AcceptOnceInOrder, FreshKeys, DeadEpochUnused.",
+        note="AEAD assumed ideal. IP driven at the protocol object over a stub transport (the full-stack request plane is C08's), BLE at the key objects and at the pairing over a simulated GATT client, CoAP with a stub aiocoap context. Known findings: known_findings.json (coap-resync-rewind, coap-resync-reset).",
         ref="5/C06"),
 })
 
